@@ -1,6 +1,6 @@
 (** Typed/Hand.v — hand-written Object/ObjectWrite pairs: Date (primitive.rs), Rectangle (object/types.rs),
     Matrix (content.rs).  Other hand-written types are outside the model ([unmodelled]).  No proofs here. *)
-From PdfV Require Import Base.Prelude Typed.Prim Typed.Schema Typed.Derive.
+From PdfV Require Import Base.Prelude Gen.Generated Typed.Prim Typed.Schema Typed.Derive.
 
 Definition hid_Date : N := 0.
 Definition hid_Rectangle : N := 1.
@@ -33,9 +33,11 @@ Fixpoint take_numbers (n : nat) (l : list prim) : tres (list Z) :=
            end
   end.
 
-(* content.rs: impl Object for Matrix — matrix(&mut p.into_array()?.into_iter()): no resolve, extra elements ignored *)
-Definition read_matrix (p : prim) : tres value :=
-  tdo arr <- into_array p; tmap VNums (take_numbers 6 arr).
+(* content.rs: impl Object for Matrix — matrix(&mut p.resolve(resolve)?.into_array()?.into_iter()) (the resolve: after
+   fix C18-c); extra elements ignored *)
+Definition read_matrix (rs : N -> tres prim) (p : prim) : tres value :=
+  tdo q <- (if matrix_reader_resolves then resolve_if_ref rs p else TOk p);
+  tdo arr <- into_array q; tmap VNums (take_numbers 6 arr).
 
 (* ObjectWrite for Rectangle / Matrix: Primitive::array::<f32>([..]) *)
 Definition write_numbers (n : nat) (v : value) : tres prim :=
@@ -132,7 +134,7 @@ Definition write_date (v : value) : tres prim :=
 Definition hand_read (i : N) (rs : N -> tres prim) (p : prim) : tres value :=
   if i =? hid_Date then read_date rs p
   else if i =? hid_Rectangle then read_rectangle rs p
-  else if i =? hid_Matrix then read_matrix p
+  else if i =? hid_Matrix then read_matrix rs p
   else unmodelled.
 Definition hand_write (i : N) (v : value) : tres prim :=
   if i =? hid_Date then write_date v
